@@ -208,6 +208,7 @@ MODEL_RATES = {
     'CPGate': ['full'], 'CRXGate': ['half'], 'CRYGate': ['half'],
     'CRZGate': ['half'], 'CUGate': ['half', 'full', 'full', 'full'],
     'FSIMGate': ['full', 'full'], 'CCPGate': ['full'],
+    'CKMGate': ['full'] * 4, 'CKMdgGate': ['full'] * 4,
 }
 MODEL_CONST = {
     'XGate', 'YGate', 'ZGate', 'SGate', 'SdgGate', 'TGate', 'TdgGate',
